@@ -65,6 +65,19 @@ def gen(rng):
             "container": container}
 
 
+def time_labels(rng, n):
+    """the timestep attribute of the DataSet entries: distinct values, or labels that repeat (a small time step written with
+    few digits, restart output) — the entries are the steps, whatever their labels"""
+    mode = rng.choice(["distinct", "distinct", "all equal", "pairs", "few digits"])
+    if mode == "distinct" or n == 0:
+        return None
+    if mode == "all equal":
+        return ["0.0"] * n
+    if mode == "pairs":
+        return [f"{(i // 2) * 0.5}" for i in range(n)]
+    return [f"{i * 0.004:.2f}" for i in range(n)]
+
+
 def write_xdmf(path, variants):
     """XDMF time series (meshio TimeSeriesWriter, XML data) with the same per-step fields as write_step"""
     from meshio.xdmf import TimeSeriesWriter
@@ -96,7 +109,7 @@ def run_impl(c, workdir, idx):
             write_xdmf(files[side], c[side])
         else:
             pvd = os.path.join(d, f"{side}.pvd")
-            V.write_pvd(pvd, steps)
+            V.write_pvd(pvd, steps, times=time_labels(__import__("random").Random(1000 * idx + len(steps)), len(steps)))
             files[side] = pvd
     if c["kind"] == "seq_vs_single":
         files["ref"] = os.path.join(d, "ref_0.vtu")
@@ -107,9 +120,21 @@ def run_impl(c, workdir, idx):
         argv.append("--ignore-missing-sequence-steps")
     if c["force"]:
         argv.append("--force-sequence-comparison")
-    with warnings.catch_warnings():
-        warnings.simplefilter("ignore")
-        rc, log, exc = run_cli(argv)
+    cwd = os.getcwd()
+    if c.get("container") != "xdmf" and idx % 5 == 0:
+        # the working directory holds files named like the steps but with other content: step paths of a .pvd are relative to it
+        dd = os.path.join(d, "cwd_with_decoys")
+        os.makedirs(dd)
+        for side in ("res", "ref"):
+            for i, v in enumerate(c[side]):
+                write_step(os.path.join(dd, f"{side}_{i}.vtu"), i, v + 17 + (3 if side == "res" else 0))
+        os.chdir(dd)
+    try:
+        with warnings.catch_warnings():
+            warnings.simplefilter("ignore")
+            rc, log, exc = run_cli(argv)
+    finally:
+        os.chdir(cwd)
     steps = [int(x) for x in re.findall(r"Comparing step (\d+) of \d+", log)]
     shutil.rmtree(d)
     return {"exit": rc, "escaped": exc, "steps": steps}
@@ -153,7 +178,7 @@ def iteration_checks(ctx, n_cases):
             write_step(p, i, i)
             steps.append(os.path.basename(p))
         pvd = os.path.join(d, "s.pvd")
-        V.write_pvd(pvd, steps)
+        V.write_pvd(pvd, steps, times=time_labels(rng, n))
         if k % 3 == 2:
             pvd = os.path.join(d, "s.xdmf")
             write_xdmf(pvd, list(range(n)))
@@ -161,16 +186,20 @@ def iteration_checks(ctx, n_cases):
         partial = rng.randint(0, n)          # consume `partial` steps first, then abandon the generator
         it = iter(seq)
         for _ in range(partial):
-            next(it)
+            try:
+                next(it)
+            except StopIteration:        # fewer steps than DataSet entries: reported below through the step lists
+                break
         del it
 
-        def markers(s):
-            out = []
-            for fd in s:
-                vals = {f.name: f.values for f in fd}
-                out.append(int(vals["marker"][0]))
-            return out
-        first, second = markers(seq), markers(seq)
+        def marker_of(fd):
+            vals = {f.name: f.values for f in fd}
+            return int(vals["marker"][0])
+        # all steps of both passes are kept alive and only looked at afterwards: a step handed out earlier must not change
+        # when later steps are read
+        held_first = list(seq)
+        held_second = list(seq)
+        first, second = [marker_of(fd) for fd in held_first], [marker_of(fd) for fd in held_second]
         shutil.rmtree(d)
         cursor = max(partial - 1, 0)
         exprs.append(f"runiter {clist([cnat(i) for i in range(n)], 'nat')} {cnat(cursor)}")
